@@ -52,7 +52,8 @@ def strategy(tier):
         pid0=st.sampled_from([False, False, False, True]),
         # which pool PIDs are alive at the start (bit i) and have an object
         setup=st.integers(0, 63),
-        ops=st.lists(st.one_of(*ops), min_size=6, max_size=nops),
+        tick0=st.sampled_from([False, False, True]),   # first pool process starts at tick 0
+        ops=history.with_motifs(ops, 6, nops),
     ))
 
 
@@ -65,7 +66,7 @@ HELPER_SIG = {"suspend": signal.SIGSTOP, "resume": signal.SIGCONT,
 def run_case(case):
     import psutil
 
-    w = history.World(with_pid0=case["pid0"])
+    w = history.World(with_pid0=case["pid0"], first_tick=-1 if case.get("tick0") else 100)
     k = w.k
     labels = set()
     nontrivial = set()
@@ -135,8 +136,9 @@ def run_case(case):
                 except psutil.NoSuchProcess as e:
                     raise Violation("constructor", f"Process() raised {e!r} for a listed PID") from None
             elif kind == "is_running":
-                o = w.pick_obj(op[1])
-                if o is not None:
+                for o in (list(w.objs) if op[1] >= 10 else [w.pick_obj(op[1])]):
+                    if o is None:
+                        continue
                     r = o.proc.is_running()
                     if r != w.alive(o):
                         raise Violation("is_running", f"pid {o.pid}: {r} but incarnation alive={w.alive(o)}")
@@ -176,7 +178,7 @@ def run_case(case):
     if w.recycled_pids:
         labels.add("history-with-recycle")
     for e in w.events:
-        if e[0] in ("oneshot-enter", "wait-returned"):
+        if e[0] in ("oneshot-enter", "wait-returned", "kept-from-process_iter", "became"):
             labels.add("history-with-" + e[0])
     return Result(sorted(labels) or ["no-action"], nontrivial or None)
 
